@@ -27,7 +27,7 @@ CONSTANTS LeaseIds,      \* lease identifiers (one per deployment group)
                          \* the manager checks hostnames only of groups it holds a lease for, so with no
                          \* lease held such a manifest passes validation (manager.go:340-373, 403-410)
           BadAlways,     \* subset of Versions: hash matches, but the manifest does not match the deployment groups
-          MaxSubmit, MaxLeaseWon, MaxRemove, MaxUpdate, MaxFetchErr, MaxClose, MaxDropped
+          MaxSubmit, MaxLeaseWon, MaxRemove, MaxUpdate, MaxFetchErr, MaxClose, MaxDropped, MaxSwallow
 
 VARIABLES
   svc,        \* "run" | "down"                      service.lc
@@ -78,17 +78,29 @@ Verdict(mf, M) == IF mf # Expected(M) THEN "wrongversion"
                   ELSE IF mf \in BadAlways \/ (mf \in BadHost /\ M.leases # <<>>) THEN "invalid"
                   ELSE "ok"
 
-\* validateRequests (manager.go:311-336)
-Validate(E) ==
+\* A request reaches the hostname check (the last step of validateRequest) iff the earlier steps pass.
+Reaches(mf, M) == mf = Expected(M) /\ mf \notin BadAlways
+
+\* Indices of the queued requests that reach the hostname check, in queue order.
+Victims(M) == SelectSeq([i \in 1..Len(M.requests) |-> i], LAMBDA i : Reaches(M.requests[i].mf, M))
+
+\* validateRequests (manager.go:311-336). victim = 0: the ordinary case. victim = i > 0: the hostname check of
+\* request i returns ErrNotRunning because its select (manager.go:365-371) took a pending stop request instead of
+\* the hostname service's answer.
+ValidateV(E, victim) ==
   LET M == E.m IN
   IF M.data = 0 \/ M.requests = <<>> THEN E
-  ELSE LET good == SelectSeq(M.requests, LAMBDA q : Verdict(q.mf, M) = "ok")
-           bad  == SelectSeq(M.requests, LAMBDA q : Verdict(q.mf, M) # "ok")
+  ELSE LET V(i)  == IF i = victim THEN "notrunning" ELSE Verdict(M.requests[i].mf, M)
+           idx   == [i \in 1..Len(M.requests) |-> i]
+           good  == SelectSeq(idx, LAMBDA i : V(i) = "ok")
+           bad   == SelectSeq(idx, LAMBDA i : V(i) # "ok")
        IN [E EXCEPT !.m.requests  = <<>>,
-                    !.m.pending   = M.pending \o [i \in 1..Len(good) |-> good[i].r],
-                    !.m.manifests = IF good # <<>> THEN Append(M.manifests, good[1].mf) ELSE M.manifests,
-                    !.out = E.out \o [i \in 1..Len(bad) |-> <<bad[i].r, Verdict(bad[i].mf, M)>>],
-                    !.val = E.val \o [i \in 1..Len(good) |-> good[i].mf]]
+                    !.m.pending   = M.pending \o [j \in 1..Len(good) |-> M.requests[good[j]].r],
+                    !.m.manifests = IF good # <<>> THEN Append(M.manifests, M.requests[good[1]].mf) ELSE M.manifests,
+                    !.out = E.out \o [j \in 1..Len(bad) |-> <<M.requests[bad[j]].r, V(bad[j])>>],
+                    !.val = E.val \o [j \in 1..Len(good) |-> M.requests[good[j]].mf]]
+
+Validate(E) == ValidateV(E, 0)
 
 \* fillAllRequests (manager.go:265-275)
 FillAll(E, kind) ==
@@ -126,7 +138,8 @@ Apply(E) ==
   /\ lastValid' = IF E.val # <<>> THEN Last(E.val) ELSE lastValid
 
 Bump(k) == cnt' = [cnt EXCEPT ![k] = @ + 1]
-Label(n, a) == act' = [name |-> n, arg |-> a]
+Label(n, a) == act' = [name |-> n, arg |-> a, c |-> 0, k |-> 0]
+LabelSw(n, a, c, k) == act' = [name |-> n, arg |-> a, c |-> c, k |-> k]
 
 \* The manager a stimulus is routed to: the running one, or a fresh one (service.ensureManager).
 Target == IF mgr = "run" THEN Cur ELSE M0
@@ -138,8 +151,8 @@ Init ==
   /\ manifests = <<>> /\ versions = <<>>
   /\ nsub = 0 /\ sub = [r \in Reqs |-> 0] /\ replies = [r \in Reqs |-> <<>>]
   /\ ann = <<>> /\ validated = {} /\ lastValid = 0
-  /\ cnt = [lw |-> 0, rm |-> 0, upd |-> 0, ferr |-> 0, close |-> 0, drop |-> 0]
-  /\ act = [name |-> "Init", arg |-> 0]
+  /\ cnt = [lw |-> 0, rm |-> 0, upd |-> 0, ferr |-> 0, close |-> 0, drop |-> 0, sw |-> 0]
+  /\ act = [name |-> "Init", arg |-> 0, c |-> 0, k |-> 0]
 
 \* event.LeaseWon on the bus -> service.handleLease -> manager `case ev := <-m.leasech`
 LeaseWon(l) ==
@@ -197,6 +210,33 @@ FetchErr ==
   /\ Bump("ferr") /\ Label("FetchErr", 0)
   /\ UNCHANGED <<svc, mgr, nsub, sub>>
 
+\* A stop request swallowed by the hostname check. checkHostnamesForManifest selects on lc.ShutdownRequest(),
+\* which CONSUMES the one-shot request: if EventDeploymentClosed (c = 1) or the provider's shutdown (c = 2) reaches
+\* the manager while one of its iterations is validating, the k-th request that reaches the hostname check may be
+\* answered ErrNotRunning, and the manager does not stop. c = 1: the close is lost, the manager carries on. c = 2: the
+\* service has begun shutting down and waits for the manager for ever; submitters see a stopped provider.
+SwEffect(c) ==
+  /\ svc' = IF c = 2 THEN "down" ELSE "run"
+  /\ mgr' = "run"
+  /\ cnt' = [cnt EXCEPT !.sw = @ + 1]
+
+SubmitSw(mf, c, k) ==
+  /\ svc = "run" /\ mgr = "run" /\ data # 0 /\ nsub < MaxSubmit /\ cnt.sw < MaxSwallow
+  /\ LET r == nsub + 1
+         M == [Cur EXCEPT !.requests = Append(@, [r |-> r, mf |-> mf])]
+     IN /\ k \in 1..Len(Victims(M))
+        /\ nsub' = r /\ sub' = [sub EXCEPT ![r] = mf]
+        /\ Apply(MaybeFetch(Emit(ValidateV(Eff(M), Victims(M)[k]))))
+  /\ SwEffect(c) /\ LabelSw("SubmitSw", mf, c, k)
+
+FetchOkSw(v, c, k) ==
+  /\ svc = "run" /\ mgr = "run" /\ fetch = "inflight" /\ cnt.sw < MaxSwallow
+  /\ LET M == [Cur EXCEPT !.fetch = "idle", !.data = v]
+     IN /\ k \in 1..Len(Victims(M))
+        /\ Apply(Emit(ValidateV(Eff(M), Victims(M)[k])))
+  /\ SwEffect(c) /\ LabelSw("FetchOkSw", v, c, k)
+  /\ UNCHANGED <<nsub, sub>>
+
 \* The manager's exit path (manager.go:208-221): reply ErrNotRunning to everything outstanding,
 \* cancel and await the fetch. The manager's state is dead afterwards.
 Exit == Apply([FillAll(Eff(Cur), "notrunning") EXCEPT !.m = M0])
@@ -239,6 +279,7 @@ Next ==
   \/ \E v \in Versions : Submit(v) \/ Update(v) \/ FetchOk(v)
   \/ FetchErr \/ DeploymentClosed \/ ManagerDone \/ Shutdown
   \/ \E k \in 1..4 : Dropped(k)
+  \/ \E v \in Versions, c \in 1..2, k \in 1..MaxSubmit : SubmitSw(v, c, k) \/ FetchOkSw(v, c, k)
 
 Spec == Init /\ [][Next]_vars
 
